@@ -23,6 +23,9 @@ pub trait Conn {
     fn role(&self) -> &'static str;
     fn idw(&self) -> i64;
     fn send(&mut self, p: &P) -> Result<Vec<E>, String>;
+    /// the same packet through `checked_send` with its CONCRETE type; `false` = that type is not `Sendable` for this
+    /// role at compile time (the packet then went through `send` instead, so that a twin object stays in step)
+    fn send_checked(&mut self, p: &P) -> Result<(Vec<E>, bool), String>;
     /// one `recv` call on `bytes[pos..]`; returns the events and the new cursor position
     fn recv_once(&mut self, bytes: &[u8], pos: usize) -> (Vec<E>, usize);
     fn fire(&mut self, k: &str) -> Vec<E>;
@@ -80,6 +83,21 @@ pub fn canon(mut ev: Vec<E>) -> Vec<E> {
         }
     }
     ev
+}
+
+/// `checked_send` for a concrete packet type IF `T: Sendable<R, W>` holds at compile time (inherent method), `None`
+/// otherwise (blanket trait default) - the inherent method takes precedence where its bound is satisfied.
+pub struct Disp<T, R, W>(std::marker::PhantomData<(T, R, W)>);
+pub trait NoDispatch<T, R: mqtt::connection::role::RoleType, W: mqtt::packet::IsPacketId> {
+    fn go(_c: &mut GenericConnection<R, W>, _p: T) -> Option<Vec<mqtt::connection::GenericEvent<W>>> {
+        None
+    }
+}
+impl<T, R: mqtt::connection::role::RoleType, W: mqtt::packet::IsPacketId> NoDispatch<T, R, W> for Disp<T, R, W> {}
+impl<T: mqtt::connection::Sendable<R, W>, R: mqtt::connection::role::RoleType, W: mqtt::packet::IsPacketId> Disp<T, R, W> {
+    pub fn go(c: &mut GenericConnection<R, W>, p: T) -> Option<Vec<mqtt::connection::GenericEvent<W>>> {
+        Some(c.checked_send(p))
+    }
 }
 
 macro_rules! conn_impl {
@@ -154,6 +172,53 @@ macro_rules! conn_impl {
                 let pk = $m::build(p)?;
                 let ev = self.c.send(pk);
                 Ok(self.evs(ev))
+            }
+            fn send_checked(&mut self, p: &P) -> Result<(Vec<E>, bool), String> {
+                use mqtt::packet::v3_1_1 as v3;
+                use mqtt::packet::v5_0 as v5;
+                use mqtt::packet::GenericPacket as G;
+                macro_rules! go {
+                    ($t:ty, $x:expr, $wrap:expr) => {{
+                        let x = $x;
+                        let back = x.clone();
+                        match <Disp<$t, $Role, $T>>::go(&mut self.c, x) {
+                            Some(ev) => (ev, true),
+                            None => (self.c.send($wrap(back)), false),
+                        }
+                    }};
+                }
+                let (ev, checked) = match $m::build(p)? {
+                    G::V3_1_1Connect(x) => go!(v3::Connect, x, G::V3_1_1Connect),
+                    G::V3_1_1Connack(x) => go!(v3::Connack, x, G::V3_1_1Connack),
+                    G::V3_1_1Subscribe(x) => go!(v3::GenericSubscribe<$T>, x, G::V3_1_1Subscribe),
+                    G::V3_1_1Suback(x) => go!(v3::GenericSuback<$T>, x, G::V3_1_1Suback),
+                    G::V3_1_1Unsubscribe(x) => go!(v3::GenericUnsubscribe<$T>, x, G::V3_1_1Unsubscribe),
+                    G::V3_1_1Unsuback(x) => go!(v3::GenericUnsuback<$T>, x, G::V3_1_1Unsuback),
+                    G::V3_1_1Publish(x) => go!(v3::GenericPublish<$T>, x, G::V3_1_1Publish),
+                    G::V3_1_1Puback(x) => go!(v3::GenericPuback<$T>, x, G::V3_1_1Puback),
+                    G::V3_1_1Pubrec(x) => go!(v3::GenericPubrec<$T>, x, G::V3_1_1Pubrec),
+                    G::V3_1_1Pubrel(x) => go!(v3::GenericPubrel<$T>, x, G::V3_1_1Pubrel),
+                    G::V3_1_1Pubcomp(x) => go!(v3::GenericPubcomp<$T>, x, G::V3_1_1Pubcomp),
+                    G::V3_1_1Disconnect(x) => go!(v3::Disconnect, x, G::V3_1_1Disconnect),
+                    G::V3_1_1Pingreq(x) => go!(v3::Pingreq, x, G::V3_1_1Pingreq),
+                    G::V3_1_1Pingresp(x) => go!(v3::Pingresp, x, G::V3_1_1Pingresp),
+                    G::V5_0Connect(x) => go!(v5::Connect, x, G::V5_0Connect),
+                    G::V5_0Connack(x) => go!(v5::Connack, x, G::V5_0Connack),
+                    G::V5_0Subscribe(x) => go!(v5::GenericSubscribe<$T>, x, G::V5_0Subscribe),
+                    G::V5_0Suback(x) => go!(v5::GenericSuback<$T>, x, G::V5_0Suback),
+                    G::V5_0Unsubscribe(x) => go!(v5::GenericUnsubscribe<$T>, x, G::V5_0Unsubscribe),
+                    G::V5_0Unsuback(x) => go!(v5::GenericUnsuback<$T>, x, G::V5_0Unsuback),
+                    G::V5_0Publish(x) => go!(v5::GenericPublish<$T>, x, G::V5_0Publish),
+                    G::V5_0Puback(x) => go!(v5::GenericPuback<$T>, x, G::V5_0Puback),
+                    G::V5_0Pubrec(x) => go!(v5::GenericPubrec<$T>, x, G::V5_0Pubrec),
+                    G::V5_0Pubrel(x) => go!(v5::GenericPubrel<$T>, x, G::V5_0Pubrel),
+                    G::V5_0Pubcomp(x) => go!(v5::GenericPubcomp<$T>, x, G::V5_0Pubcomp),
+                    G::V5_0Disconnect(x) => go!(v5::Disconnect, x, G::V5_0Disconnect),
+                    G::V5_0Pingreq(x) => go!(v5::Pingreq, x, G::V5_0Pingreq),
+                    G::V5_0Pingresp(x) => go!(v5::Pingresp, x, G::V5_0Pingresp),
+                    G::V5_0Auth(x) => go!(v5::Auth, x, G::V5_0Auth),
+                };
+                Ok((self.evs(ev), checked))
             }
             fn recv_once(&mut self, bytes: &[u8], pos: usize) -> (Vec<E>, usize) {
                 let mut cur = Cursor::new(bytes);
